@@ -61,10 +61,12 @@ const (
 	aWait     // arg: 0 1s, 1 3s, 2 next hold deadline - 10ms, 3 next hold deadline + 10ms, 4 250s, 5 12s
 	aOpenBoth // valid OPEN on both connections without letting the server run in between; arg: 0 out first, 1 in first
 	aUpdate   // UPDATE on the established connection (resets its hold timer)
+	aDisable  // DisablePeer (administrative shutdown)
+	aEnable   // EnablePeer
 	numA07
 )
 
-var a07Names = [...]string{"accept-dial", "refuse-dial", "inbound", "open-out", "open-in", "keepalive-out", "keepalive-in", "close-out", "close-in", "wait", "open-both", "update"}
+var a07Names = [...]string{"accept-dial", "refuse-dial", "inbound", "open-out", "open-in", "keepalive-out", "keepalive-in", "close-out", "close-in", "wait", "open-both", "update", "disable", "enable"}
 
 type a07Ev struct {
 	Kind int `json:"kind"`
@@ -91,7 +93,7 @@ func drawA07(t *rapid.T) a07Case {
 		ConnectRetry: rapid.SampledFrom([]int{5, 10, 30}).Draw(t, "connect_retry"),
 	}
 	pool := []int{aAccept, aAccept, aAccept, aRefuse, aInbound, aInbound, aOpenOut, aOpenOut, aOpenIn, aOpenIn, aKeepOut, aKeepOut, aKeepIn, aKeepIn,
-		aCloseOut, aCloseIn, aWait, aWait, aWait, aOpenBoth, aUpdate}
+		aCloseOut, aCloseIn, aWait, aWait, aWait, aOpenBoth, aUpdate, aDisable, aEnable, aEnable}
 	switch rapid.IntRange(0, 9).Draw(t, "prelude") {
 	case 4: // collision: OPEN on both at once
 		c.Events = append(c.Events, a07Ev{Kind: aInbound}, a07Ev{Kind: aAccept}, a07Ev{Kind: aOpenBoth, Arg: rapid.IntRange(0, 1).Draw(t, "pboth")})
@@ -192,6 +194,7 @@ type a07Run struct {
 	refAt  map[int]time.Duration // dial index -> instant it was refused
 	estOn  map[int]time.Duration // conn idx -> instant the session was first seen Established on it
 	labels map[string]bool
+	down   [][2]time.Duration // intervals of administrative shutdown (an open one ends at 0)
 }
 
 func (r *a07Run) logf(f string, a ...any) {
@@ -399,6 +402,20 @@ func (r *a07Run) apply(ev a07Ev) *verifkit.Failure {
 				}
 			}
 		}
+	case aDisable:
+		if len(r.down) > 0 && r.down[len(r.down)-1][1] == 0 {
+			return nil // already down
+		}
+		err := n.s.DisablePeer(context.Background(), &api.DisablePeerRequest{Address: r.peer.Addr})
+		r.logf("disable: %v", err)
+		r.down = append(r.down, [2]time.Duration{n.now(), 0})
+	case aEnable:
+		if len(r.down) == 0 || r.down[len(r.down)-1][1] != 0 {
+			return nil
+		}
+		err := n.s.EnablePeer(context.Background(), &api.EnablePeerRequest{Address: r.peer.Addr})
+		r.logf("enable: %v", err)
+		r.down[len(r.down)-1][1] = n.now()
 	case aCloseOut, aCloseIn:
 		c := r.latest(ev.Kind == aCloseOut)
 		if c == nil {
@@ -654,6 +671,11 @@ func (r *a07Run) verify() *verifkit.Failure {
 						ownReason = true // an error of its own (e.g. a second OPEN on it), answered as such
 					}
 				}
+				for _, iv := range r.down {
+					if winner.eofAt >= iv[0]-tol && (iv[1] == 0 || winner.eofAt <= iv[1]) {
+						ownReason = true // administrative shutdown
+					}
+				}
 				if winner.eofAt <= later+tol && !ownReason {
 					return r.fail("collision-winner-closed", "collision: OPENs read on conn#%d (outbound) and conn#%d (inbound) at %v; local id higher=%v, conn#%d must survive — the server closed it at %v",
 						a.c.idx, b.c.idx, later, localHigh, winner.c.idx, winner.eofAt)
@@ -680,6 +702,31 @@ func (r *a07Run) verify() *verifkit.Failure {
 			}
 		}
 	}
+	// ---- administrative shutdown: nothing is dialled, nothing is accepted, every connection goes ----
+	isDown := func(t time.Duration) bool {
+		for _, iv := range r.down {
+			if t > iv[0]+tol && (iv[1] == 0 || t < iv[1]-tol) {
+				return true
+			}
+		}
+		return false
+	}
+	for i, x := range r.d.all() {
+		if isDown(x.at) {
+			return r.fail("connect-while-admin-down", "connect attempt #%d started at %v although the peer is administratively down (%v)", i, x.at, r.down)
+		}
+	}
+	for _, f := range facts {
+		if isDown(f.c.openedAt) && len(f.rx) > 0 {
+			return r.fail("talks-while-admin-down", "conn#%d came up at %v while the peer is administratively down and the server spoke on it (%s)", f.c.idx, f.c.openedAt, c07Describe(f.rx[0]))
+		}
+		if f.live && isDown(now) && len(r.down) > 0 && now > r.down[len(r.down)-1][0]+time.Second {
+			return r.fail("open-while-admin-down", "conn#%d is still open %v after DisablePeer", f.c.idx, now-r.down[len(r.down)-1][0])
+		}
+	}
+	if len(r.down) > 0 {
+		r.labels["admin-down"] = true
+	}
 	// ---- connect attempts ----
 	dials := r.d.all()
 	for i, x := range dials {
@@ -696,6 +743,11 @@ func (r *a07Run) verify() *verifkit.Failure {
 				}
 				if f.c.openedAt <= dials[i+1].at && end >= ra-40*time.Second {
 					quiet = false
+				}
+			}
+			for _, iv := range r.down {
+				if iv[0] <= dials[i+1].at && (iv[1] == 0 || iv[1] >= ra-40*time.Second) {
+					quiet = false // an administrative shutdown in between restarts everything
 				}
 			}
 			if !quiet {
